@@ -576,11 +576,10 @@ def is_registered(
             'register_deferred may not be True when check_deferred is False'
         )
 
-    if type in pretty_dispatch.registry:
-        return True
-
     if check_deferred:
-        # Check deferred printers for the type exactly.
+        # Check deferred printers for the type exactly. This comes first:
+        # a printer registered by name after an earlier one was already
+        # promoted to the live registry must replace it.
         deferred_key = get_deferred_key(type)
         if deferred_key in _DEFERRED_DISPATCH_BY_NAME:
             if register_deferred:
@@ -589,6 +588,9 @@ def is_registered(
                 )
                 register_pretty(type)(deferred_dispatch)
             return True
+
+    if type in pretty_dispatch.registry:
+        return True
 
     if not check_superclasses:
         return False
